@@ -582,6 +582,11 @@ def run(repo: Repo, rep: Report, tier: str) -> None:
     from .c05 import leb128_rule as _leb
 
     _leb(repo, rep, "C08.R14")
+    from .c11 import union_encode_rule
+
+    # the raw buffer a union keeps holds as many bytes as the input had: a cut inside the union's tail padding leaves it short, so a union dumped
+    # from that buffer differs from the value the complete input gives
+    union_encode_rule(repo, rep, "C08.R15")
 def residue_rule(repo: Repo, rep: Report, rid: str, cg: CallGraph, clo: set[str], roots: list[str]) -> None:
     """Shared-object attributes written in the closure must be reset before any read on entry (or not written at all)."""
     ea = EffectAnalysis(repo, cg)
